@@ -2,5 +2,25 @@
 # Run once after a fresh restore (offline). Everything else is rebuilt by the checks from /repo's working tree.
 set -e
 cd "$(dirname "$0")"
+export CARGO_NET_OFFLINE=true
 python3-vt -c "import z3, sympy; print('z3', z3.get_version_string(), 'sympy', sympy.__version__)"
 mkdir -p .work evidence replays
+# warm-ups (not required for correctness: every check rebuilds what it needs from /repo's current tree, keyed by a hash of the sources):
+# the two MIR dumps of the current tree, the native replay binaries, the Groth16 test binary of C15
+python3-vt - <<'PY' || true
+import sys, time
+sys.path.insert(0, '.')
+t0 = time.time()
+try:
+    from dv import mirload
+    for b in ('ark', 'min'): mirload.dump(b); print('MIR', b, round(time.time() - t0, 1), 's', flush=True)
+except Exception as e: print('MIR warm-up skipped:', e)
+try:
+    from dv import replay
+    for b in ('ark', 'min'): replay.Native.get(b, 'dev'); print('replay', b, round(time.time() - t0, 1), 's', flush=True)
+except Exception as e: print('replay warm-up skipped:', str(e)[-300:])
+try:
+    from dv import shape
+    o = shape.check_groth16_native()[0]; print('groth16', o.status, round(time.time() - t0, 1), 's', flush=True)
+except Exception as e: print('groth16 warm-up skipped:', str(e)[-300:])
+PY
